@@ -2,10 +2,13 @@
    own amounts again yields a state that satisfies all local equations, whatever the equations
    of the non-special quotas were before (only the self sums and the leaf figures are read). *)
 From Coq Require Import List ZArith Bool Lia.
-From Verif Require Import Lib.Vec2 C01.Model C01.Spec C01.Proofs_Base C01.Proofs_Walk C01.Proofs_Delta
+From Verif Require Import Lib.VecN C01.Model C01.Spec C01.Proofs_Base C01.Proofs_Walk C01.Proofs_Delta
   C01.Proofs_PodList C01.Proofs_Sections C01.Proofs_Shape.
 Import ListNotations.
 Open Scope Z_scope.
+
+Section WithDim.
+Context {D : Dim}.
 
 Definition SpecOk (sh : list qshape) : Prop :=
   forall q, In q sh -> special (q_name q) = true -> q_parent q = 0.
@@ -185,10 +188,10 @@ Section Reset.
     constructor; try reflexivity.
     - intros q Hq. destruct (special (q_name q)) eqn:E.
       + rewrite (HR0s _ E). apply (pr_posr _ HP). exact Hq.
-      + rewrite (HR0n _ E). reflexivity.
+      + rewrite (HR0n _ E). apply nonneg_r_iff. cbn [r0 r_req r_creq r_sreq r_np r_snp]. repeat split; apply vnonneg_zero.
     - intros q Hq. destruct (special (q_name q)) eqn:E.
       + rewrite (HU0s _ E). apply (pr_posu _ HP). exact Hq.
-      + rewrite (HU0n _ E). reflexivity.
+      + rewrite (HU0n _ E). apply nonneg_u_iff. cbn [u0 u_used u_sused u_np u_snp]. repeat split; apply vnonneg_zero.
     - intros q Hq. destruct (special (q_name q)) eqn:E.
       + destruct (pr_special _ HP q Hq E) as (HA & HN & _ & HU & HUN).
         assert (Hnc : forall c, In c sh -> q_parent c <> q_name q) by (intros c Hc; apply special_no_children; assumption).
@@ -200,7 +203,7 @@ Section Reset.
                   sumc sh g (q_name q) = vzero).
         { intros g Hg. unfold sumc. apply vsum_map_zero. intros c Hc. apply in_children in Hc. apply Hg; tauto. }
         unfold okA, okN, okU, okUN. rewrite (HR0n _ E), (HU0n _ E). cbn [r_creq r_sreq r_np r_snp u_used u_sused u_np u_snp r0 u0].
-        rewrite !Hz; auto.
+        rewrite !Hz; rewrite ?vadd_0_l; auto.
         * intros c Hc Hp. unfold unpU. rewrite (HU0n _ (child_not_special q c Hq Hc Hp)). reflexivity.
         * intros c Hc Hp. unfold usedU. rewrite (HU0n _ (child_not_special q c Hq Hc Hp)). reflexivity.
         * intros c Hc Hp. unfold npR. rewrite (HR0n _ (child_not_special q c Hq Hc Hp)). reflexivity.
@@ -244,3 +247,5 @@ Section Reset.
     - intros q Hq. rewrite Jsh in Hq. rewrite Jp. apply (pr_quiet _ HP). exact Hq.
   Qed.
 End Reset.
+
+End WithDim.
